@@ -40,6 +40,33 @@ def _is_ss(a, ssp):
     return a in ssp
 
 
+_CHAIN = {}
+
+
+def chain_following(prog, path, _stack=()):
+    """Does the crate function follow a chain of bindings (`$T -> $U -> [b, c]`)?  True when its body, or a crate function
+    it hands a substitution set to, has a loop or calls itself; a function that reads one binding and returns has neither."""
+    key = (id(prog), path)
+    if key in _CHAIN:
+        return _CHAIN[key]
+    if path in _stack:
+        return True          # recursion: follows as far as the chain goes
+    idx = {b.path: b for b in prog.lib_bodies()}
+    b = idx.get(path)
+    if b is None:
+        return False
+    ok = bool(BodyCfg(b).loops())
+    if not ok:
+        for i, t in b.calls():
+            nm = t["callee"].get("resolved") or t["callee"].get("path") or ""
+            hb = idx.get(nm)
+            if hb is not None and (nm == path or (ss_params(hb) and chain_following(prog, nm, _stack + (path,)))):
+                ok = True
+                break
+    _CHAIN[key] = ok
+    return ok
+
+
 def walkers(prog):
     """Free functions that take a substitution set and have a loop which moves along `next` links of list nodes and
     looks at their terms (directly or through a private helper called inside the loop)."""
@@ -76,6 +103,7 @@ def follows_tail(prog, b, max_visits=3):
         return False, "too many paths", 0
     n = 0
     flag_read = False
+    single = None
     for p in ps:
         node = None
         look = None
@@ -103,6 +131,9 @@ def follows_tail(prog, b, max_visits=3):
                 has_term = any(mentions(a, lambda y: y[0] == "field" and y[2] == LIST + ".term" and strip(y[1]) == node) or
                                (a[0] == "field" and a[2] == LIST + ".term" and strip(a[1]) == node) for a in args)
                 if has_ss and has_term:
+                    if not chain_following(prog, e["callee"]):
+                        single = e["callee"]          # reads one binding: a variable bound to a variable bound to a list is not followed
+                        continue
                     look = strip(e["result"]) if e.get("result") is not None else None
             elif look not in (None, "done") and e["k"] == "call":
                 if any(mentions(a, lambda t: t[0] == "field" and t[2] in (LIST + ".term", LIST + ".next") and
@@ -116,6 +147,9 @@ def follows_tail(prog, b, max_visits=3):
                                                      mentions(t[1], lambda y: y == look)):
                     n += 1
                     break
+    if single:
+        return False, ("the tail variable is looked up with %s, which reads one binding and does not follow a chain of variables: a "
+                       "tail variable bound to a variable bound to a list is not continued" % single.split("::")[-1]), len(ps)
     skipped = _flag_without_lookup(ps, ssp, crate)
     if n and skipped:
         return False, ("on some path a node whose tail-variable flag is set (line %d) is taken for an element without its variable being "
